@@ -381,6 +381,34 @@ func cmdConc(args []string) int {
 		}
 	}
 	closingNow.Store(true)
+	if *closeEarly {
+		// deletes of linked nodes issued all through the shutdown: one that is journaled after Close has stopped accepting
+		// background work must still run its cascade (or fail cleanly) -- and Close must return
+		wg.Add(1)
+		go func() {
+			defer wg.Done()
+			for i := 0; i < 400; i++ {
+				id := fmt.Sprintf("late-%d", i)
+				ok := false
+				call("VAdd", func() (bool, map[string]any) {
+					ok = e.VAdd(ix, id, []float32{9, 9, float32(i), 1}, nil) == nil
+					return ok, nil
+				}, map[string]any{"vids": []string{id}})
+				if !ok {
+					return
+				}
+				e.VLink(ix, "r1", id, "late", "", 1, nil)
+				e.VLink(ix, id, "r2", "late", "", 1, nil)
+				call("VDelete", func() (bool, map[string]any) {
+					ok = e.VDelete(ix, id) == nil
+					return ok, nil
+				}, map[string]any{"vids": []string{id}})
+				if !ok {
+					return
+				}
+			}
+		}()
+	}
 	closeRet := make(chan error, 1)
 	go func() { closeRet <- e.Close() }()
 	select {
